@@ -3,6 +3,7 @@ package actor
 import (
 	"encoding/json"
 	"fmt"
+	"strings"
 	"sync"
 	"testing"
 	"time"
@@ -167,7 +168,12 @@ func c20Body(c *run.Ctx) {
 			x.adapter.UpdateTableState(live)
 		}
 		after, _ := json.Marshal(live)
-		if string(before) != string(after) {
+		// the engine itself flips the status opened -> playing on another goroutine while the
+		// first snapshot of a hand is being delivered; that is not an effect of the fan-out
+		norm := func(b []byte) string {
+			return strings.Replace(strings.Replace(string(b), `"status":"table_game_opened"`, `"status":"-"`, 1), `"status":"table_game_playing"`, `"status":"-"`, 1)
+		}
+		if norm(before) != norm(after) {
 			report("C20.engine-table-changed", fmt.Sprintf("fan-out to %v changed the engine's table (event %s, status %s)", order, name, live.State.Status))
 			return
 		}
@@ -206,7 +212,7 @@ func c20Body(c *run.Ctx) {
 				}
 			case "system":
 				// a system-mode observer sees the unmasked state
-				if x.got.raw != string(before) {
+				if norm([]byte(x.got.raw)) != norm(before) {
 					report("C20.system-not-unmasked", fmt.Sprintf("system-mode observer did not receive the unmasked table (status %s)", live.State.Status))
 					return
 				}
